@@ -96,7 +96,12 @@ func (r *isoRun) setup(tag string) error {
 			opts = r.shared
 		}
 		opts.AccessController = sim.AccessFor(writers)
-		if d.local, err = r.inst.Open(fmt.Sprintf("%s-%s", tag, name), realType(d.stype), opts); err != nil {
+		// the third database has the name of the first one (another type: another manifest, another address)
+		dbname := fmt.Sprintf("%s-%s", tag, name)
+		if i == 2 {
+			dbname = fmt.Sprintf("%s-%s", tag, r.in.DBs[0])
+		}
+		if d.local, err = r.inst.Open(dbname, realType(d.stype), opts); err != nil {
 			return err
 		}
 		if d.remote, err = r.rem.Open(d.local.Addr, realType(d.stype), nil); err != nil {
